@@ -313,7 +313,7 @@ pub fn case_for(seed: u64, _tier: Tier, run: u64) -> Case {
 }
 
 pub fn run(ctx: &Ctx) -> i32 {
-    let n = scaled(ctx.tier.pick(120_000, 4_000_000));
+    let n = scaled(ctx.tier.pick(120_000, 3_000_000));
     let stats = par_run(n, ctx.workers, |i, st| {
         let case = case_for(ctx.seed, ctx.tier, i);
         with_curve!(case.st.curve, G, run_case::<G>(i, &case, st));
